@@ -217,7 +217,7 @@ func runScenario(sc *scenario, p *profile, r *kit.Rng) (kit.Case, error) {
 		return kit.Case{}, err
 	}
 	defer rg.teardown()
-	e := &exec{r: rg, sc: sc, seenG: map[int64]bool{}, tags: map[string]bool{}, prev: map[uint32]string{}, vals: map[int]map[string]bool{}}
+	e := &exec{r: rg, sc: sc, seenG: map[int64]bool{}, tags: map[string]bool{}, prev: map[uint32]string{}, vals: map[int]map[string]bool{}, extKeys: map[uint32]bool{}}
 	for range rg.parts {
 		e.api = append(e.api, &apiM{ph: "idle"})
 		e.held = append(e.held, map[uint32]bool{})
@@ -251,6 +251,15 @@ func runScenario(sc *scenario, p *profile, r *kit.Rng) (kit.Case, error) {
 	}
 	if e.reacq {
 		e.tags["reacquired-while-local-leader"] = true
+	}
+	owner := map[string]int{}
+	for p, vs := range e.vals {
+		for v := range vs {
+			if q, ok := owner[v]; ok && q != p {
+				e.tags["shared-values"] = true
+			}
+			owner[v] = p
+		}
 	}
 	if e.unexpl || e.tags["hung-api-call"] || e.err != nil {
 		delete(e.tags, "F17:acquired-while-releaser-context-live")
